@@ -214,8 +214,13 @@ class HistoryGen:
                 ids = [e[1] for e in self.toc_entries]      # another firmware: same names, other indices
                 rng.shuffle(ids)
                 self.toc_entries = [[e[0], i, e[2]] for e, i in zip(self.toc_entries, ids)]
+        # add_config attempts while the table of the new session is still empty (between the reset reply and
+        # the TOC info reply): rejected; the table then arrives from the TOC cache or by download
+        if self.im.cfgs and rng.random() < 0.4:
+            for _ in range(rng.choice([1, 1, 2])):
+                self.add(rng.randrange(len(self.im.cfgs)))
         if rng.random() < 0.95:
-            self.emit(['settoc', self.toc_entries])
+            self.emit(['settoc', self.toc_entries, rng.choice(['cache', 'cache', 'new'])])
 
     def pick_name(self, in_toc=0.98):
         rng = self.rng
@@ -733,26 +738,38 @@ def _check_block(case):
     gens2 = case.get('v2', [True, True])      # protocol generation of the first / the reconnect session
     cur_v2 = [gens2[0]]
 
-    def open_session(table=None, v2=None, between=()):
+    def open_session(table=None, v2=None, between=(), mid=None):
         if v2 is not None:
             cur_v2[0] = v2
         ev(['refresh', cur_v2[0]])
         for pkt in between:                     # acknowledgements of the OLD session, before the reset reply
             im.apply(['pkt', 1, pkt])
         ev(['pkt', 1, [5, 0, 0]])
-        ev(['settoc', table if table is not None else case['toc']])
-    open_session()
+        if mid is not None:
+            mid()
+        if case.get('early_add') and im.cfgs and any(v[0] != 'm' for v in case['vars']):
+            # add_config while the table of this session is still empty: must be rejected (its variables are
+            # not in the table YET); it must not spoil the lookups once the table is there
+            for _ in range(case['early_add']):
+                w, code, obs = ev(['addcfg', 0])
+                if code == 0 or w:
+                    raise _Fail('accept_mismatch', 'rejected (empty table)', 'accepted' if code == 0 else w,
+                                'add_config between the reset reply and the TOC of the session')
+        ev(['settoc', table if table is not None else case['toc'], case.get('install', 'new')])
     ms = case['ms']
-    ev(['new', ms])
     spec = []          # what the user asked for: (name, fetch type or None, kind, stored, addr)
-    for v in case['vars']:
-        if v[0] == 't':
-            ev(['addvar', 0, v[1], v[2]])
-        elif v[0] == 'd':
-            ev(['addvar', 0, v[1], 0])
-        else:
-            ev(['addmem', 0, v[1], v[2], v[3], v[4]])
-        spec.append(v)
+
+    def make_config():
+        ev(['new', ms])
+        for v in case['vars']:
+            if v[0] == 't':
+                ev(['addvar', 0, v[1], v[2]])
+            elif v[0] == 'd':
+                ev(['addvar', 0, v[1], 0])
+            else:
+                ev(['addmem', 0, v[1], v[2], v[3], v[4]])
+            spec.append(v)
+    open_session(mid=make_config)
     cfg = im.cfgs[0]
     typed = [v for v in spec if v[0] != 'd']
     dflt = [v for v in spec if v[0] == 'd']
@@ -1093,6 +1110,9 @@ def _gen_block_case(rng, force=None):
     case = {'kind': 'block', 'toc': toc, 'ms': ms, 'vars': vs, 'samples': samples,
             'delete': rng.random() < 0.5, 'reconnect': rng.random() < 0.6}
     case['lag'] = rng.choice([0, 1, 2, 99, 99])
+    case['install'] = rng.choice(['cache', 'cache', 'new'])      # how the session's table gets into Log.toc
+    if rng.random() < 0.35:
+        case['early_add'] = rng.choice([1, 1, 2])
     if rng.random() < 0.2:
         case['refuse'] = rng.choice([12, 12, 7, 2, 8])      # ENOMEM, E2BIG, ENOENT, ENOEXEC
     tn = [v for v in vs if v[0] != 'm']
@@ -1477,7 +1497,7 @@ def _shrink(case, cls, budget=400):
             continue
         cands = []
         for key, val in (('reconnect', False), ('delete', False), ('restart', None), ('toc2', None), ('refuse', None),
-                         ('v2', None), ('late', []), ('late2', []),
+                         ('v2', None), ('late', []), ('late2', []), ('early_add', None),
                          ('samples', []),
                          ('ms', 100)):
             if cur.get(key) not in (val, None) or (key == 'ms' and cur.get('ms') != 100):
@@ -1598,7 +1618,8 @@ PROVED = ('Over the model: add_config accepts iff names in TOC, 1<=int(ms/10)<=2
           'commanded for every lag and resend schedule; shared packet object refuted); start() of a not added block '
           'always creates (a refusal does not wedge it; the pending-guarded variant is refuted); every accepted add binds '
           'the configuration to the protocol generation of the current session (bind-once refuted); the reset reply of a '
-          'new session forgets added/started/pending whatever old acknowledgements arrived late (forget-at-disconnect refuted).')
+          'new session forgets added/started/pending whatever old acknowledgements arrived late (forget-at-disconnect refuted); '
+          'lookups follow the installed table (memoised index refuted).')
 NOT_PROVED = ('Refuted on the unchanged code and kept as a known finding: raw-memory variables (add_memory) make create() '
               'raise TypeError (F05a; why it is not repaired: findings/C05.json why_not_fixed).  Not covered: protocol V1 has '
               'its theorem but no room test exists in the code (more than 14 variables exceed 30 bytes); append '
